@@ -38,6 +38,7 @@ lazy_static! {
 pub fn process_graphql_type_system_document(
     db: &IsographDatabase<GraphQLAndJavascriptProfile>,
     type_system_document: GraphQLTypeSystemDocument,
+    query_root: EntityName,
     graphql_root_types: &mut Option<GraphQLRootTypes>,
     outcome: &mut DeprecatedParseTypeSystemOutcome<GraphQLAndJavascriptProfile>,
     directives: &mut HashMap<EntityName, Vec<GraphQLDirective<GraphQLConstantValue>>>,
@@ -85,6 +86,7 @@ pub fn process_graphql_type_system_document(
                         (server_object_entity_name, (*REFETCH_FIELD_NAME)),
                         get_refetch_selectable(
                             server_object_entity_name,
+                            query_root,
                             subfields_or_inline_fragments.clone(),
                         )
                         .interned_value(db)
@@ -97,7 +99,10 @@ pub fn process_graphql_type_system_document(
                         (
                             server_object_entity_name,
                             *REFETCH_FIELD_NAME,
-                            refetch_selectable_refetch_strategy(subfields_or_inline_fragments),
+                            refetch_selectable_refetch_strategy(
+                                query_root,
+                                subfields_or_inline_fragments,
+                            ),
                         )
                             .with_generated_location()
                             .wrap_ok(),
@@ -164,6 +169,7 @@ pub fn process_graphql_type_system_document(
 }
 
 fn refetch_selectable_refetch_strategy(
+    query_root: EntityName,
     subfields_or_inline_fragments: Vec<WrappedSelectionMapSelection>,
 ) -> RefetchStrategy {
     RefetchStrategy::UseRefetchField(generate_refetch_field_strategy(
@@ -184,14 +190,14 @@ fn refetch_selectable_refetch_strategy(
             ],
         }
         .with_location(EmbeddedLocation::todo_generated()),
-        // TODO use the type from the schema
-        "Query".intern().into(),
+        query_root,
         subfields_or_inline_fragments,
     ))
 }
 
 fn get_refetch_selectable(
     server_object_entity_name: EntityName,
+    query_root: EntityName,
     subfields_or_inline_fragments: Vec<WrappedSelectionMapSelection>,
 ) -> ClientScalarSelectable<GraphQLAndJavascriptProfile> {
     ClientScalarSelectable {
@@ -207,8 +213,7 @@ fn get_refetch_selectable(
         name: (*REFETCH_FIELD_NAME),
         variant: ClientFieldVariant::ImperativelyLoadedField(ImperativelyLoadedFieldVariant {
             selectable_name: (*REFETCH_FIELD_NAME),
-            // TODO use the actual schema query type
-            root_object_entity_name: "Query".intern().into(),
+            root_object_entity_name: query_root,
             subfields_or_inline_fragments,
             field_map: vec![FieldMapItem {
                 from: (*ID_FIELD_NAME).unchecked_conversion(),
@@ -233,6 +238,7 @@ fn get_refetch_selectable(
 pub fn process_graphql_type_system_extension_document(
     db: &IsographDatabase<GraphQLAndJavascriptProfile>,
     extension_document: GraphQLTypeSystemExtensionDocument,
+    query_root: EntityName,
     graphql_root_types: &mut Option<GraphQLRootTypes>,
     outcome: &mut DeprecatedParseTypeSystemOutcome<GraphQLAndJavascriptProfile>,
     directives: &mut HashMap<EntityName, Vec<GraphQLDirective<GraphQLConstantValue>>>,
@@ -257,6 +263,7 @@ pub fn process_graphql_type_system_extension_document(
     process_graphql_type_system_document(
         db,
         GraphQLTypeSystemDocument(definitions),
+        query_root,
         graphql_root_types,
         outcome,
         directives,
